@@ -97,30 +97,31 @@ VERIF_HARNESS(h_help_switch_optarg) { check_help<Prod<Switch<0, true>, Optional<
 //@harness h_help_switch_optarg param n=0..2 tier=quick loop=200
 //@harness h_help_switch_optarg param n=3..3 tier=thorough loop=200 wall=3000 paths=200000
 
-// commands( [--aa|-a INT]? ; "xy": INT [--dd] ; "12": unit )
-VERIF_HARNESS(h_commands)
+namespace
+{
+FCPPT_RECORD_MAKE_LABEL(tag_xy);
+FCPPT_RECORD_MAKE_LABEL(tag_12);
+
+// commands(Common ; "xy": SubXY ; "12": Sub12) on `prefix ++ n symbolic tokens from the alphabet`
+template <typename Common, typename SubXY, typename Sub12>
+void check_commands(m::tokens const &_alphabet, m::tokens const &_prefix)
 {
   init_symbols();
-  using common = Optional<Opt<0, int, true, false>>;
-  using sub_xy = Prod<Arg<1, int>, Switch<3, false>>;
-  using sub_12 = Unit<2>;
-  FCPPT_RECORD_MAKE_LABEL(tag_xy);
-  FCPPT_RECORD_MAKE_LABEL(tag_12);
-  auto cmd_xy{o::make_sub_command<tag_xy>(sstr{"xy"}, sub_xy::real(), o::optional_help_text{})};
-  auto cmd_12{o::make_sub_command<tag_12>(sstr{"12"}, sub_12::real(), o::optional_help_text{})};
+  auto cmd_xy{o::make_sub_command<tag_xy>(sstr{"xy"}, SubXY::real(), o::optional_help_text{})};
+  auto cmd_12{o::make_sub_command<tag_12>(sstr{"12"}, Sub12::real(), o::optional_help_text{})};
   using result_xy = o::result_of<decltype(cmd_xy)>;
   using result_12 = o::result_of<decltype(cmd_12)>;
-  auto const parser{o::make_commands(common::real(), std::move(cmd_xy), std::move(cmd_12))};
+  auto const parser{o::make_commands(Common::real(), std::move(cmd_xy), std::move(cmd_12))};
   verif_reach("commands constructed");
 
-  m::node const m_common{common::model()}, m_xy{sub_xy::model()}, m_12{sub_12::model()};
-  // own names of the common options, the two command names, a sub-command switch, a foreign flag, a non-command word
-  m::tokens const alphabet{"--aa", "-a", "12", "xy", "--dd", "-z", "ab", "-"};
-  fcppt::args_vector const args{choose_args(alphabet)};
+  m::node const m_common{Common::model()}, m_xy{SubXY::model()}, m_12{Sub12::model()};
+  fcppt::args_vector args{_prefix};
+  for (sstr const &a : choose_args(_alphabet)) { args.push_back(a); }
   auto const real{o::parse(parser, args)};
   verif_reach("parsed");
 
-  // reference
+  // reference: the command name is the first positional argument w.r.t. the option names of the COMMON parser;
+  // the common parser gets what is before it, the sub-command's parser - with ITS OWN option names - what is after it
   m::machine mc{args, {}};
   m::option_names(m_common, mc.opts);
   m::state all{};
@@ -157,10 +158,33 @@ VERIF_HARNESS(h_commands)
     verif_assert(got.size() == flat.size(), "commands: record shape");
     for (std::size_t i = 0; i < got.size() && i < flat.size(); ++i)
     {
+      verif_out("value", got[i]);
       verif_assert(got[i] == flat[i], "commands: common options record, chosen sub-command and its record as in the model");
     }
   }
 }
+}
+
+// commands( [--aa|-a INT]? ; "xy": INT [--dd] ; "12": unit )
+VERIF_HARNESS(h_commands)
+{
+  // own names of the common options, the two command names, a sub-command switch, a foreign flag, a non-command word
+  check_commands<Optional<Opt<0, int, true, false>>, Prod<Arg<1, int>, Switch<3, false>>, Unit<2>>(
+      m::tokens{"--aa", "-a", "12", "xy", "--dd", "-z", "ab", "-"}, m::tokens{});
+}
 //@harness h_commands param n=0..2 tier=quick loop=200
 //@harness h_commands param n=3..3 tier=quick loop=200 cost=9
 //@harness h_commands param n=4..4 tier=thorough loop=200 wall=3000 paths=200000
+
+// commands( [--aa] ; "xy": STRING --cc INT ; "12": unit ): the sub-command combines a positional argument with a
+// value-taking option that the COMMON parser does not know.  While the sub-command's parser runs, the option names
+// in force must be its own: in ["xy","--cc","12","ab"] the "12" is the value of --cc, never the positional argument.
+// pre=1 puts the common switch "--aa" before the n symbolic tokens.
+VERIF_HARNESS(h_commands_subopt)
+{
+  check_commands<Switch<0, false>, Prod<Arg<1, sstr>, Opt<2, int, false, false>>, Unit<3>>(
+      m::tokens{"xy", "--cc", "12", "ab", "--aa"}, verif_param("pre") != 0 ? m::tokens{"--aa"} : m::tokens{});
+}
+//@harness h_commands_subopt param pre=0..1 param n=0..3 tier=quick loop=200
+//@harness h_commands_subopt param pre=0..1 param n=4..4 tier=quick loop=200 cost=9
+//@harness h_commands_subopt param pre=0..1 param n=5..5 tier=thorough loop=200 wall=3000 paths=200000
